@@ -501,6 +501,40 @@ func corrC03(outDir string, seed uint64, tier string, replay string) *report {
 			rep.bump("length_sweep_lengths")
 		}
 	}
+	// ---- costs across the digit-count boundaries (the decimal cost text is part of what SHA-1-crypt and Sun MD5 hash) ----
+	if xc != nil {
+		for _, rounds := range []uint32{1, 9, 10, 11, 99, 100, 999, 1000, 1001, 5903, 5904, 5905, 5906, 9999, 10000, 10001, 65535, 65536, 99999, 100000} {
+			func() {
+				defer func() {
+					if r := recover(); r != nil {
+						notePanic("Key of a classic scheme (C03 cost sweep)", fmt.Sprint("rounds=", rounds, "; ", firstLibFrame()), r)
+					}
+				}()
+				pw := "cost sweep"
+				a := map[string]interface{}{"password": pw, "rounds": rounds}
+				if k, err := sha1.Key([]byte(pw), []byte("saltsalt"), rounds); err == nil {
+					ref("sha1", a, pw, fmt.Sprintf("$sha1$%d$saltsalt$%s", rounds, crypthash.LittleEndianEncoding.EncodeToString(k)))
+				}
+				if k, err := sunmd5.Key([]byte(pw), []byte("saltsalt"), rounds, &sunmd5.CompatibilityOptions{Prefix: "$md5,"}); err == nil {
+					ref("sunmd5", a, pw, fmt.Sprintf("$md5,rounds=%d$saltsalt$$%s", rounds, crypthash.LittleEndianEncoding.EncodeToString(k)))
+				}
+				if k, err := sha256.Key([]byte(pw), []byte("saltsalt"), 1000+rounds); err == nil {
+					ref("sha256", a, pw, fmt.Sprintf("$5$rounds=%d$saltsalt$%s", 1000+rounds, crypthash.LittleEndianEncoding.EncodeToString(k)))
+				}
+				if rounds < 1<<24 {
+					if k, err := desext.Key([]byte(pw), []byte("salt"), rounds); err == nil {
+						rb := make([]byte, 4)
+						for q := 0; q < 4; q++ {
+							rb[q] = alphaCrypt[(rounds>>uint(6*q))&63]
+						}
+						ref("desext", a, pw, "_"+string(rb)+"salt"+crypthash.BigEndianEncoding.EncodeToString(k))
+					}
+				}
+				rep.count(fmt.Sprint("costsweep", rounds), true)
+				rep.bump("cost_sweep")
+			}()
+		}
+	}
 	rep.Distribution["model_primitive_calls"] = m.calls
 	rep.Rule = "per scheme: passwords of length 0..19, 31..253 and random (8-bit, NUL-free), salts of every legal length, cheap rounds; the implementation's Key vs the extracted Coq model of the in-repo KDF control code (impl) and vs the specification function (spec), both run with the real primitives served by the harness; the encoded hash vs libxcrypt 4.4 crypt(3) (secondary oracle, both directions coincide when strings are equal). Non-trivial = non-empty password; distinct by (scheme, password, salt)."
 	return rep
